@@ -1618,7 +1618,13 @@ def proj_l1(x, radius=1, out=None):
     if u.ufuncs.sum() <= radius:
         out[:] = x
     else:
-        v = x.ufuncs.sign()
+        if getattr(x.space, 'is_real', True):
+            v = x.ufuncs.sign()
+        else:
+            # Phase factor ``x / |x|`` (``sign`` of a complex number is the
+            # sign of its real part for NumPy < 2)
+            v = x / x.space.element(
+                np.maximum(u.asarray(), np.finfo(u.dtype).tiny))
         proj_simplex(u, radius, out)
         out *= v
 
